@@ -213,7 +213,7 @@ Proof.
            (mk_frame default_ns (compile_block ex_block) None None []).
     split; [|split; [cbn [app]; rewrite app_nil_r|]; reflexivity].
     split; [unfold Good; split; [reflexivity|cbn; auto 10]|]. split; [reflexivity|]. split.
-    + split; [|reflexivity]. cbn. constructor; [|constructor]. repeat split.
+    + split; [|reflexivity]. cbn. constructor; [|constructor]. split; [intros k; reflexivity|split; reflexivity].
     + split; [reflexivity|]. exists []. split; reflexivity.
   - eexists. eapply PBCons; [eapply PSLocal; [discriminate|eapply PNum]|].
     eapply PBCons; [eapply PSAssign; [discriminate|]|].
@@ -302,7 +302,7 @@ Proof.
   cbv zeta. split; [|repeat split].
   split; [|split; [reflexivity|exists []; split; reflexivity]].
   split; [unfold Good; split; [reflexivity|cbn; auto 10]|]. split; [reflexivity|]. split.
-  - split; [|reflexivity]. cbn. constructor; [|constructor]. repeat split.
+  - split; [|reflexivity]. cbn. constructor; [|constructor]. split; [intros k; reflexivity|split; reflexivity].
   - split; [cbn; lia|reflexivity].
 Qed.
 
